@@ -146,6 +146,8 @@ func supervise(args []string) int {
 		return 3
 	}
 	defer os.RemoveAll(scratch)
+	// whatever the check started and left behind (a worker stuck in a call that never returns, a server) ends with the run
+	defer killStrays("VERIF_SCRATCH_DIR=" + scratch)
 	cmd.Env = append(os.Environ(), "VERIF_PROGRESS="+progress, "VERIF_SCRATCH_DIR="+scratch)
 	cmd.SysProcAttr = &syscall.SysProcAttr{Setpgid: true}
 	budget := 40 * time.Minute
@@ -252,4 +254,30 @@ wait:
 		r.Inconclusive(fmt.Sprintf("check process ended with exit code %d for an unknown reason; last cases: %s", code, last))
 	}
 	return r.Finish()
+}
+
+// killStrays sends SIGKILL to every process whose environment carries the marker (all descendants of a check inherit
+// the run's scratch directory in their environment, whatever process group they are in).
+func killStrays(marker string) {
+	ents, err := os.ReadDir("/proc")
+	if err != nil {
+		return
+	}
+	self := os.Getpid()
+	for _, e := range ents {
+		pid := 0
+		if _, err := fmt.Sscan(e.Name(), &pid); err != nil || pid <= 1 || pid == self {
+			continue
+		}
+		b, err := os.ReadFile(filepath.Join("/proc", e.Name(), "environ"))
+		if err != nil {
+			continue
+		}
+		for _, kv := range strings.Split(string(b), "\x00") {
+			if kv == marker {
+				_ = syscall.Kill(pid, syscall.SIGKILL)
+				break
+			}
+		}
+	}
 }
